@@ -199,6 +199,10 @@ class Engine:
                 return val.t
         if kind.startswith(("ref:", "list:", "dict:", "set:", "iter:")) and isinstance(val, SRef):
             return val.t
+        if kind.startswith(("ref:", "list:", "dict:", "set:")) and isinstance(val, SOptRef):
+            if not st.spec:
+                self.oblige(st, "type", "not-none", val.t != 0, "an Optional value is used where an object is required")
+            return val.t
         if isinstance(val, SDyn):
             # dynamic value stored into a typed slot: its tag must fit (type obligation)
             if kind == "str":
@@ -297,10 +301,29 @@ class Engine:
         s.set("timeout", self.feas_timeout)
         for a in self.global_axioms:
             s.add(a)
-        s.add(*st.pc)
+        # quantified assumptions are left out: a weaker context can only keep more paths (sound)
+        s.add(*[h for h in st.pc if not self._has_quant(h)])
         s.add(cond)
         r = s.check()
         return r != z3.unsat
+
+    def _has_quant(self, t):
+        cache = self.__dict__.setdefault("_quant_cache", {})
+        i = t.get_id()
+        if i not in cache:
+            found = False
+            todo, seen = [t], set()
+            while todo and not found:
+                x = todo.pop()
+                if x.get_id() in seen:
+                    continue
+                seen.add(x.get_id())
+                if z3.is_quantifier(x):
+                    found = True
+                else:
+                    todo.extend(x.children())
+            cache[i] = found
+        return cache[i]
 
     def branch(self, st, cond, kt, kf, label=""):
         cond = z3.simplify(cond)
@@ -1041,6 +1064,9 @@ class Engine:
                 else:
                     raise EngineError(f"store to undeclared attribute {cname}.{attr} (add it to the schema)")
             return out
+        if isinstance(o, SOptRef):
+            return self.branch(st, o.t != 0, lambda s: self.set_attr(SRef(o.t, o.inner), attr, v, s, fr, k),
+                               lambda s: self.raise_new(s, "AttributeError"), "optref-store")
         if isinstance(o, SDyn):
             return bm.dyn_set_attr(self, o, attr, v, st, fr, k)
         raise EngineError(f"attribute store on {o!r}")
